@@ -87,7 +87,58 @@ func decodeWith(data []byte, res resolver) (*imagev1.Image, error) {
 	if err := (proto.UnmarshalOptions{Resolver: res}).Unmarshal(data, img); err != nil {
 		return nil, err
 	}
+	normaliseAny(img.ProtoReflect(), res)
 	return img, nil
+}
+
+// normaliseAny re-encodes the payload of every google.protobuf.Any below m (custom options can be
+// Any-typed) deterministically, so that two images are not told apart by the field order inside an Any
+// payload, which no encoding promises to keep. Payloads of unknown type are left alone.
+func normaliseAny(m protoreflect.Message, res resolver) {
+	if m.Descriptor().FullName() == "google.protobuf.Any" {
+		fields := m.Descriptor().Fields()
+		urlFD, valFD := fields.ByNumber(1), fields.ByNumber(2)
+		if urlFD == nil || valFD == nil {
+			return
+		}
+		mt, err := res.FindMessageByURL(m.Get(urlFD).String())
+		if err != nil {
+			return
+		}
+		payload := mt.New()
+		if err := (proto.UnmarshalOptions{Resolver: res, AllowPartial: true}).Unmarshal(m.Get(valFD).Bytes(), payload.Interface()); err != nil {
+			return
+		}
+		normaliseAny(payload, res)
+		b, err := proto.MarshalOptions{Deterministic: true, AllowPartial: true}.Marshal(payload.Interface())
+		if err != nil {
+			return
+		}
+		m.Set(valFD, protoreflect.ValueOfBytes(b))
+		return
+	}
+	m.Range(func(fd protoreflect.FieldDescriptor, v protoreflect.Value) bool {
+		if fd.Message() == nil {
+			return true
+		}
+		switch {
+		case fd.IsMap():
+			if fd.MapValue().Message() != nil {
+				v.Map().Range(func(_ protoreflect.MapKey, mv protoreflect.Value) bool {
+					normaliseAny(mv.Message(), res)
+					return true
+				})
+			}
+		case fd.IsList():
+			l := v.List()
+			for i := 0; i < l.Len(); i++ {
+				normaliseAny(l.Get(i).Message(), res)
+			}
+		default:
+			normaliseAny(v.Message(), res)
+		}
+		return true
+	})
 }
 
 func names(img *imagev1.Image) []string {
